@@ -99,9 +99,9 @@ def real_thread_runs(ctx):
             opts = dict(max_workers=rng.choice([1, 2, 5]), max_errors=rng.choice([0, 1, None]), scheduler=rng.choice(["default", "random"]))
             from harness import common
             with contextlib.redirect_stdout(buf), contextlib.redirect_stderr(buf):
-                how, info = common.bounded(lambda: uberjob.run(plan, output=out, progress=prog, **opts), 30.0)
+                how, info = common.bounded(lambda: uberjob.run(plan, output=out, progress=prog, **opts), 60.0)
             if how == "hung":
-                viol.append({"property": "C07", "what": f"uberjob.run (real threads, {opts}) did not return within 30 s; still there: {info[:4]}",
+                viol.append({"property": "C07", "what": f"uberjob.run (real threads, {opts}) did not return within 60 s; still there: {info[:4]}",
                              "user_case": {"spec": spec, "output": None, "workers": opts["max_workers"], "max_errors": opts["max_errors"],
                                            "scheduler": opts["scheduler"], "failing": failing}, "seed": 0})
                 break
